@@ -144,7 +144,51 @@ def _alpha_ref(u, indep_before, indep_after, v, is_ind, T_inv):
     return torch.exp(-1 * ((regul(a) - regul(b)) * T_inv + (t(a[a_name]) - t(b[a_name]))))
 
 
-def analyse(u, kind, v, sampler, std_before, env, spies, ref_before, T_inv):
+def analyse_individual_from_observables(u, v, sampler, std_before, zc, uc, cur, indep, T_inv, st_after):
+    """Fallback of `analyse` for the individual sampler when the internals are organised differently: only the draws
+    consumed (environment log) and the values after the step are used; the acceptance ratio is the from-scratch one, so a
+    uniform draw within its float32 rounding is not judged."""
+    cls = type(sampler).__name__
+    n = u.n_ind
+    probs = []
+    z_all = [x for c in zc for x in c[3]]
+    u_all = [x for c in uc for x in c[3]]
+    numel = n
+    for d in sampler.shape:
+        numel *= d
+    if len(z_all) != numel or len(u_all) != n or st_after is None:
+        probs.append((f"{cls}.sample|wrong number of proposals or draws|", f"normal elements={len(z_all)} (block size {numel}) uniform elements={len(u_all)} for {n} decisions"))
+        return probs, None, None
+    z = torch.tensor(z_all, dtype=torch.float32).reshape((n, *sampler.shape))
+    prop = cur + std_before[(slice(None),) + (None,) * sampler.ndim] * z
+    fin = st_after._values[v]
+    indep_after = dict(indep)
+    indep_after[v] = prop
+    alpha_ref = _alpha_ref(u, indep, indep_after, v, True, T_inv).to(torch.float64).reshape(-1)
+    sampler._lmc_alpha_from_scratch = alpha_ref.to(torch.float32)  # stands for the (unseen) implementation ratios downstream
+    uu = torch.tensor(u_all, dtype=torch.float64)
+    out = []
+    for i in range(n):
+        if same_tensor(fin[i], prop[i]) and not same_tensor(prop[i], cur[i]):
+            out.append(True)
+        elif same_tensor(fin[i], cur[i]):
+            out.append(False)
+        else:
+            probs.append((f"{cls}.sample|value after the step is neither the proposal nor the previous value|", f"individual {i}: {fin[i].tolist()}"))
+            return probs, None, None
+        a = float(alpha_ref[i])
+        if a == a and abs(float(uu[i]) - a) > 1e-5 * max(abs(a), 1e-30) and out[i] != (float(uu[i]) < a):
+            probs.append((f"{cls}.sample|decision differs from u < alpha|no tie", f"individual {i}: u={float(uu[i])!r} alpha (from scratch)={a!r} accepted={out[i]}"))
+        if a != a and out[i]:
+            probs.append((f"{cls}.sample|decision differs from u < alpha|acceptance ratio is NaN", f"individual {i} accepted"))
+    acc_rec = sampler.acceptation_history[-1].to(torch.bool)
+    if acc_rec.tolist() != out:
+        probs.append((f"{cls}.sample|acceptance record differs from the decisions|", f"{acc_rec.tolist()} vs {out}"))
+    mask = torch.tensor(out).reshape((n,) + (1,) * (cur.ndim - 1))
+    return probs, out, torch.where(mask, prop, cur)
+
+
+def analyse(u, kind, v, sampler, std_before, env, spies, ref_before, T_inv, st_after=None):
     """Check monitors (1)-(3) for one sample() call. Returns (problems, decisions(list of bool), new reference value)."""
     is_ind = v in u.ind_vars
     probs = []
@@ -156,8 +200,10 @@ def analyse(u, kind, v, sampler, std_before, env, spies, ref_before, T_inv):
     if is_ind:
         n = u.n_ind
         if len(spies.puts) != 1 or len(zc) != 1 or len(uc) != 1 or len(spies.steps) != 1:
-            probs.append((f"{cls}.sample|wrong number of proposals or draws|", f"puts={len(spies.puts)} z={len(zc)} u={len(uc)}"))
-            return probs, None, None
+            # The step is not organised as the spies expect (one State.put, one call of the group metropolis step).  That is
+            # not a violation by itself: judge the step from what the property can observe - the draws handed out by the
+            # environment and the values held by the state afterwards.
+            return analyse_individual_from_observables(u, v, sampler, std_before, zc, uc, cur, indep, T_inv, st_after)
         name, val, idx, accumulate, before, after = spies.puts[0]
         z = torch.tensor(zc[0][3], dtype=torch.float32).reshape((n, *sampler.shape))
         exp_delta = std_before[(slice(None),) + (None,) * sampler.ndim] * z
@@ -281,8 +327,11 @@ def run_case(u, kind, v, T_inv, start, script, ids_label=None, want_alphas=False
         spies = spied_sample(st, sampler, env, T_inv)
     except Exception as e:
         return {"problems": [(f"{type(sampler).__name__}.sample|raises {type(e).__name__}|", f"{e}")], "decisions": None}
-    probs, decisions, new = analyse(u, kind, v, sampler, std_before, env, spies, ref, T_inv)
-    out = {"problems": probs, "decisions": decisions, "alphas": [a.clone() for a, _ in spies.steps], "new": new, "env": env}
+    probs, decisions, new = analyse(u, kind, v, sampler, std_before, env, spies, ref, T_inv, st_after=st)
+    alphas = [a.clone() for a, _ in spies.steps]
+    if not alphas and getattr(sampler, "_lmc_alpha_from_scratch", None) is not None:
+        alphas = [sampler._lmc_alpha_from_scratch]
+    out = {"problems": probs, "decisions": decisions, "alphas": alphas, "new": new, "env": env}
     if new is not None and not probs:
         ref.indep[v] = new
         ref.fork = None
@@ -358,6 +407,8 @@ def explore(u, kind, v, acc, tier, model_name):
                     continue
                 # ---- tie scripts: u = alpha (must be rejected), float neighbours on each side
                 alphas = base_res["alphas"]
+                if not alphas:
+                    continue
                 flat = alphas[0].reshape(-1).tolist() if is_ind else [float(a) for a in alphas]
                 for j, a in enumerate(flat):
                     if not (0.0 < a < 1.0):
@@ -409,7 +460,7 @@ def recorded_pass(u, kind, v, acc, seed, model_name, n_sweeps):
         std_before = sampler.std.clone()
         env = seams.Recording()
         spies = spied_sample(st, sampler, env, 1.0 if k % 2 == 0 else 0.5)
-        probs, decisions, new = analyse(u, kind, v, sampler, std_before, env, spies, ref, 1.0 if k % 2 == 0 else 0.5)
+        probs, decisions, new = analyse(u, kind, v, sampler, std_before, env, spies, ref, 1.0 if k % 2 == 0 else 0.5, st_after=st)
         acc.evaluation()
         acc.transition()
         case = {"model": model_name, "ids": u.ids, "kind": kind, "variable": v, "recorded_seed": seed, "sweep": k}
